@@ -173,14 +173,15 @@ func (s *Spec) write(overwrite bool) error {
 	return err
 }
 
-// escapeJSONForYAML escapes DEL and the C1 control characters (U+007F to
-// U+009F), which encoding/json leaves as they are, as \u00XX. Spec files
-// are read back with a YAML parser which does not accept these characters
-// unescaped (or, for U+0085, treats them as a line break).
+// escapeJSONForYAML escapes DEL, the C1 control characters (U+007F to
+// U+009F) and the non-characters U+FFFE and U+FFFF, which encoding/json
+// leaves as they are, as \uXXXX. Spec files are read back with a YAML
+// parser which does not accept these characters unescaped (or, for U+0085,
+// treats them as a line break).
 func escapeJSONForYAML(data []byte) []byte {
 	out := make([]byte, 0, len(data))
 	for _, r := range string(data) {
-		if r >= 0x7f && r <= 0x9f {
+		if (r >= 0x7f && r <= 0x9f) || r == 0xfffe || r == 0xffff {
 			out = append(out, fmt.Sprintf(`\u%04x`, r)...)
 		} else {
 			out = utf8.AppendRune(out, r)
